@@ -80,6 +80,14 @@ Print Assumptions local_every_neighbour_drawable.
 Example local_every_neighbour_drawable_nonvacuous : 2 < 3.
 Proof. lia. Qed.
 
+Theorem local_every_neighbour_pair_realisable : forall nbrs k nu perm j m,
+  j < nu -> m < k ->
+  exists us, us_ok nu us /\
+             nth j (local_pairs nbrs k nu us perm) (0, 0) =
+             (nth j perm 0, nth m (nth (nth j perm 0) nbrs []) 0).
+Proof. exact local_any_neighbour_pair. Qed.
+Print Assumptions local_every_neighbour_pair_realisable.
+
 (* ---- the old code (before F14), kept as regression theorems ----------------------------------- *)
 Theorem local_indices_refuted :
   exists nbrs nupd N its outs,
